@@ -111,6 +111,17 @@ def run(pid: str, chk) -> None:
                 res["must_stay_silent"][n]["rc"] = 0
             elif rc != 0:
                 chk.error(f"checker self-test: behaviour-preserving variant '{n}' gave exit {rc} (expected 0): the checker is unsound/brittle for this rewrite {first}")
+    # the normal form every term comparison rests on: laws it must identify, non-laws it must keep apart, both cross-checked under the installed pandas
+    try:
+        from . import laws
+        from ..core.progdb import ProgramDB
+        lr = laws.run(ProgramDB(silent.REPO), with_concrete=True)
+        res["normal_form"] = {"laws": len(lr["laws"]), "laws_identified": sum(1 for v in lr["laws"].values() if v["same_term"]), "nonlaws": len(lr["nonlaws"]),
+                              "nonlaws_kept_apart": sum(1 for v in lr["nonlaws"].values() if not v["same_term"]), "failures": lr["failures"]}
+        for f_ in lr["failures"]:
+            chk.error(f"checker self-test (normal form): {f_}")
+    except ImportError as ex:          # pandas missing: the symbolic half cannot be cross-checked
+        res["normal_form"] = {"skipped": str(ex)}
     res["summary"] = {"must_fire": len(res["must_fire"]), "fired": sum(1 for v in res["must_fire"].values() if v["rc"] == 1), "not_understood_by_design": sum(1 for v in res["must_fire"].values() if v.get("expected") == 2),
                       "must_stay_silent": len(res["must_stay_silent"]), "silent": sum(1 for v in res["must_stay_silent"].values() if v["rc"] == 0),
                       "must_never_alarm": len(res["must_never_alarm"]), "never_alarmed": sum(1 for v in res["must_never_alarm"].values() if v["rc"] in (0, 2, "not-applicable"))}
